@@ -108,7 +108,7 @@ PLAN["C10"] = dict(
     level="exploration",
     engines=["resize event monitor over orchestrated (gated) and free-run resizes (native)", "stamp arithmetic over all 31 table lengths"],
     assumptions=["resize events are emitted by hooks at points ordered before the next generation can begin"],
-    require={"stamp_lengths": 31, "orch_generations_multi_helper": 5, "generations": 50, "generations_multi_helper": 3},
+    require={"stamp_lengths": 31, "orch_generations_multi_helper": 5, "generations": 50, "generations_multi_helper": 3, "ladder_runs": 6, "ladder_growths": 30},
     jobs=lambda t: [
         J("resize", "native", ["c10", "--rounds", q(t, 120, 4000)], shards=q(t, 8, 12), budget_s=q(t, 30, 600), parallel=q(t, 8, 12)),
     ],
@@ -184,7 +184,7 @@ PLAN["C13"] = dict(
     level="exploration",
     engines=["predicate-side race orchestration (native)", "free-run with retain pseudo-operations in the linearizability checker (native)"],
     assumptions=["a race in which the predicate never saw the key or the writer did not run is inconclusive"],
-    require={"races_completed_between_inspection_and_removal": 100, "retain_rejections_checked": 50, "retain_force_rejections_checked": 50},
+    require={"races_completed_between_inspection_and_removal": 100, "retain_rejections_checked": 50, "retain_force_rejections_checked": 50, "sequential_retain_cases": 500},
     jobs=lambda t: [
         J("retain", "native", ["c13", "--rounds", q(t, 150, 5000)], shards=q(t, 8, 12), budget_s=q(t, 30, 600), parallel=q(t, 8, 12)),
     ],
@@ -201,6 +201,8 @@ LIT = {
     "init-race": ["init", 0, 0, 0, 6],
     "grow": ["grow", 0, 1, 0, 8],
     "split-trees": ["mix4", 6, 64, 20, 8],
+    "tree-lookups-under-inserts": ["treeread", 2, 64, 10, 8],
+    "samebin-lookups-under-inserts": ["treeread", 3, 64, 9, 8],
 }
 
 
@@ -236,6 +238,6 @@ PLAN["C15"] = dict(
     miri_classes=["data-race", "ub"],
     require={},
     require_prefix={"miri_seeds_": 8},
-    jobs=lambda t: miri_jobs(["list-mix3", "tree-mix3", "grow", "split-trees"], q(t, 12, 256), q(t, 4, 16))
-    + miri_jobs(["tree-samebin-mix4", "list-mix4", "tree-grow-from-0", "init-race"], q(t, 4, 128), q(t, 1, 16)),
+    jobs=lambda t: miri_jobs(["list-mix3", "tree-mix3", "grow", "split-trees", "tree-lookups-under-inserts"], q(t, 12, 256), q(t, 4, 16))
+    + miri_jobs(["tree-samebin-mix4", "list-mix4", "tree-grow-from-0", "init-race", "samebin-lookups-under-inserts"], q(t, 4, 128), q(t, 1, 16)),
 )
